@@ -454,10 +454,13 @@ struct ProbeStat
     long n = 0, bad = 0;
     long fa = -1, fb = -1;
     double got = 0, want = 0;
-    void see(long a, long b, double g, double w, bool compare = true)
+    // bitwise: a table lookup must hand back the stored bits; numeric (-0 == +0, NaN == NaN): two ways of computing
+    // the same exact sum may differ in the sign of a zero
+    void see(long a, long b, double g, double w, bool compare = true, bool bitwise = true)
     {
         n++;
-        if (compare && !same_bits(g, w))
+        const bool same = bitwise ? same_bits(g, w) : (g == w || (std::isnan(g) && std::isnan(w)));
+        if (compare && !same)
         {
             if (bad == 0)
             {
@@ -513,9 +516,9 @@ static void probe_adapters(const DenseMatrix& X, bool exact)
         for (IndexType a = 0; a < n; a++)
             for (IndexType b = 0; b < n; b++)
             {
-                k1.see(a, b, ek.kernel(a, b), hand.hand_kernel(a, b), exact);
+                k1.see(a, b, ek.kernel(a, b), hand.hand_kernel(a, b), exact, false);
                 k2.see(a, b, ek(a, b), ek.kernel(a, b));
-                d1.see(a, b, ed.distance(a, b), hand.hand_distance(a, b), exact);
+                d1.see(a, b, ed.distance(a, b), hand.hand_distance(a, b), exact, false);
                 d2.see(a, b, ed(a, b), ed.distance(a, b));
             }
         for (IndexType a = 0; a < n; a++)
